@@ -19,10 +19,16 @@ for prop in sorted(os.listdir(OUTROOT)):
         base = demo if re.search(r"OUT is the directory this file lives in", run) else out
         run=run.replace("${OUT}",base).replace("$OUT",base).replace("{OUT}",base).replace("<OUT>",base)
         run=re.sub(r"\\\n\s*"," ",run)   # join backslash continuations
+        # round 2 wrote literal absolute paths of the author's own worktree: run in OUR scratch worktree instead
+        run=re.sub(r"/tmp/seed/%s(?=[/ \n\"'])" % prop, WT, run)
         setup=[l.strip() for l in run.split("\n") if re.match(r"^\s*(mkdir -p|cp |printf .*>> )", l)]
         tests=[]
         for l in run.split("\n"):
-            l=re.sub(r"^(\w+=\S+\s+)+","",l.strip())
+            l=l.strip()
+            l=re.sub(r"^(\$\s+|>\s+)","",l)
+            l=re.sub(r"^cd\s+\S+\s*&&\s*","",l)
+            l=re.sub(r"^\(cd\s+\S+\s*&&\s*(.*)\)$",r"\1",l)
+            l=re.sub(r"^(\w+=\S+\s+)+","",l)
             if l.startswith("cargo test") and l not in tests: tests.append(l)
         sh("git checkout -- . && git clean -fdq")
         for c in setup: sh(c)
